@@ -56,6 +56,9 @@ def gen_scenario(rng, profile: dict) -> dict:
             c["gate"] = len(gates)
             gates.append(len(gates))
         args, kwargs = [], {}
+        if rng.random() < profile.get("array_p", 0.2):
+            # a numpy array as first positional argument: comparing two task dictionaries with == then raises
+            args.append({"a": [rng.randrange(0, 4), rng.randrange(0, 4), i]})
         if resolver and profile.get("deps", True) and i > 0:
             for _ in range(rng.choice(profile.get("dep_weights", [0, 0, 1, 1, 2, 3]))):
                 j = rng.randrange(0, i)
